@@ -157,6 +157,34 @@ def replay_needs_update(which, stored, configured, present=True):
     return False
 
 
+def replay_libpass_context(n):
+    """the libpass context over real hashers: the first scheme hashes, any scheme's hash verifies, an update is asked for exactly
+    for hashes that are not in the first scheme's format"""
+    import warnings
+    warnings.simplefilter("ignore")
+    import libpass.context as LC
+    from libpass.hashers.sha_crypt import SHA256Hasher, SHA512Hasher
+    from libpass.hashers.pbkdf2 import PBKDF2SHA256Handler
+    pool = [SHA256Hasher(rounds=1000), PBKDF2SHA256Handler(rounds=2), SHA512Hasher(rounds=1000)]
+    for k in sorted(set([1, 2, 3, max(1, min(n, 3))])):
+        hs = pool[:k]
+        ctx = LC.CryptContext(hs)
+        own = ctx.hash("pw")
+        if not hs[0].identify(own):
+            return "libpass CryptContext(%d schemes).hash() is not in the first scheme's format" % k
+        if not ctx.verify("pw", own) or ctx.verify("px", own):
+            return "libpass CryptContext(%d schemes) does not verify exactly its own hash" % k
+        if ctx.needs_update(own):
+            return "libpass CryptContext(%d schemes) asks to update a hash it has just made" % k
+        for other in pool[1:k]:
+            h = other.hash("pw")
+            if not ctx.verify("pw", h):
+                return "libpass CryptContext(%d schemes) rejects a hash of one of its schemes" % k
+            if not ctx.needs_update(h):
+                return "libpass CryptContext(%d schemes) does not ask to update a hash of a later scheme" % k
+    return False
+
+
 def ob_interop_concrete():
     r = replay_interop()
     if r:
@@ -273,7 +301,8 @@ def ob_context(n):
         r, m = valid(claim, p.cond())
         if r != "unsat":
             return _v("libpass.context.CryptContext with %d schemes: hash/verify/needs_update do not follow "
-                      "'first scheme hashes, any verifies, update iff not the first scheme's format'" % n, "context") if r == "sat" \
+                      "'first scheme hashes, any verifies, update iff not the first scheme's format'" % n, "context",
+                      func="replay_libpass_context", n=n) if r == "sat" \
                 else inconclusive("solver %s" % r)
     r, m = check(z3.Not(z3.Or(*[p.pc for p in paths])))
     if r != "unsat":
